@@ -1,12 +1,16 @@
+pub mod c01;
+pub mod c23;
 pub mod c35;
 
 use crate::harness::Property;
 
 pub fn get(id: &str) -> Option<&'static dyn Property> {
     match id {
+        "C01" => Some(&c01::C01),
+        "C23" => Some(&c23::C23),
         "C35" => Some(&c35::C35),
         _ => None,
     }
 }
 
-pub const ALL_IDS: &[&str] = &["C35"];
+pub const ALL_IDS: &[&str] = &["C01", "C23", "C35"];
